@@ -4,3 +4,6 @@ CONSTANT PeerHandleBase = 70000
 CONSTANT Side = "client"
 INVARIANT Emit
 CHECK_DEADLOCK FALSE
+CONSTANT C1 = 3
+CONSTANT C2 = 4
+CONSTANT Focus = "all"
